@@ -302,8 +302,8 @@ class Gen:
             md.msid = o.get("msid", "stream-1 track-" + mid)
             md.rtp.codecs = codecs
             md.rtp.headerExtensions = [] if o.get("noext") else [
-                mk("rtcrtpparameters.RTCRtpHeaderExtensionParameters", id=1, uri="urn:ietf:params:rtp-hdrext:sdes:mid"),
-                mk("rtcrtpparameters.RTCRtpHeaderExtensionParameters", id=2 if kind == "audio" else 3,
+                mk("rtcrtpparameters.RTCRtpHeaderExtensionParameters", id=o.get("extids", (1, 0))[0], uri="urn:ietf:params:rtp-hdrext:sdes:mid"),
+                mk("rtcrtpparameters.RTCRtpHeaderExtensionParameters", id=o["extids"][1] if o.get("extids") else 2 if kind == "audio" else 3,
                    uri="urn:ietf:params:rtp-hdrext:ssrc-audio-level" if kind == "audio" else "http://www.webrtc.org/experiments/rtp-hdrext/abs-send-time"),
             ]
             if o.get("rtcp", True):
@@ -363,6 +363,8 @@ class Gen:
         variants: List[Tuple[str, Dict[str, Any]]] = [
             ("no candidates, gathering incomplete", dict(cands=[], complete=False)),
             ("no header extensions", dict(noext=True)),
+            ("header extension ids of the two-byte form (15 and 255)", dict(extids=(15, 255))),
+            ("header extension ids 14 and 16", dict(extids=(14, 16))),
             ("no ssrc", dict(nossrc=True)),
             ("no rtcp line", dict(rtcp=False)),
             ("rtcp without mux", dict(rtcp_mux=False)),
@@ -571,6 +573,28 @@ def run(rep: Report, prog: Program, tier: str) -> None:
             bad = next((f"{a!r} became {b!r}" for a, b in itertools.zip_longest(t1.splitlines(), t2.splitlines()) if a != b), "")
             rep.fail(mk_finding(prog, PROP, "C09-IDEM", parse, parse.node,
                                 f"text [{label}]: a second parse-and-serialise round changes the text: {bad}", construct="idempotence: " + bad[:60]))
+
+    # ---------------------------------------------------------------- C09-FRESH: a parser hands out a fresh object on every call
+    # (the callers write into what they get: signaling.object_from_string sets sdpMid / sdpMLineIndex on the candidate, setRemoteDescription edits parsed sections;
+    #  a memoised parser makes two parsed objects one, and a message sequence no longer comes back as it was sent)
+    rep.rule("C09-FRESH", "no function of the description / candidate codecs that returns a mutable object is memoised", min_instances=10)
+    MEMO = {"lru_cache", "cache", "cached_property"}
+    for mname in ("sdp", "contrib.signaling", "rtcsessiondescription"):
+        m_ = prog.modules.get(mname)
+        if m_ is None:
+            continue
+        for fn in [n for n in ast.walk(m_.tree) if isinstance(n, (ast.FunctionDef, ast.AsyncFunctionDef))]:
+            decos = [unparse(d.func if isinstance(d, ast.Call) else d).split(".")[-1] for d in fn.decorator_list]
+            memo = [d for d in decos if d in MEMO]
+            ret = unparse(fn.returns) if fn.returns is not None else ""
+            immutable = ret in ("str", "int", "bool", "float", "bytes", "None", "Optional[str]", "Optional[int]") or ret.startswith(("tuple[", "Tuple["))
+            if memo and not immutable:
+                fi_ = next((f for f in prog.functions.values() if f.node is fn), None) if hasattr(prog, "functions") else None
+                rep.fail(mk_finding(prog, PROP, "C09-FRESH", fi_ or parse, fn, f"`{fn.name}` is decorated with {memo[0]} and returns {ret or 'an object'}: every caller gets the same mutable object, "
+                                    "so what one caller writes into it (sdpMid, sdpMLineIndex, edits of a parsed section) shows up in every other parse of the same text",
+                                    construct=f"memoised {fn.name}"))
+            else:
+                rep.ok("C09-FRESH", f"{mname}.{fn.name}", nontrivial=bool(decos))
 
     # ---------------------------------------------------------------- C09-CAND
     rep.rule("C09-CAND", "candidate lines and the signaling codec round-trip", min_instances=40)
